@@ -82,7 +82,7 @@ class SymCtx(BaseCtx):
         self.interp = pyvc.Interp(path, cfg)
         self.ops = self.interp.ops
 
-    def int(self, name, lo=None, hi=None):
+    def int(self, name, lo=None, hi=None, rnd_hi=None):
         return self.path.int(name, lo, hi)
 
     def bool(self, name):
@@ -150,13 +150,14 @@ class ConcreteCtx(BaseCtx):
             return lo + base
         return hi - base
 
-    def int(self, name, lo=None, hi=None):
+    def int(self, name, lo=None, hi=None, rnd_hi=None):
+        """rnd_hi only narrows the *random sampling* of the differential run (e.g. allocation sizes)"""
         if name in self.used:
             return self.used[name]
         if name in self.model:
             v = int(self.model[name])
         elif self.rng is not None:
-            v = self._rand(lo, hi)
+            v = self._rand(lo, hi if rnd_hi is None else rnd_hi)
         else:
             v = lo if lo is not None else (hi if hi is not None and hi < 0 else 0)
         if (lo is not None and v < lo) or (hi is not None and v > hi):
@@ -327,11 +328,42 @@ def eval_witness(expr, path):
     env = {}
     for name, v in path.vars.items():
         env[name.replace("!", "_")] = v
-    env.update({"And": And, "Or": Or, "Not": Not, "Implies": Implies})
+    from vc.terms import Max, Min
+    env.update({"And": And, "Or": Or, "Not": Not, "Implies": Implies, "Max": Max, "Min": Min})
     try:
         return eval(expr, {"__builtins__": {}}, env)
     except NameError:
         return None        # witness speaks about variables that this path does not have: not applicable here
+
+
+def small_model(assertions, r, rlimit=None):
+    """prefer a counter-model of small magnitude (fast native replay, readable witness): re-solve with every integer
+    variable boxed, widening the box; falls back to the solver's first model"""
+    from vc.terms import free_vars
+    vs = {}
+    for a in assertions:
+        if not isinstance(a, bool):
+            free_vars(a, vs)
+    ints = [v for v in vs.values() if v[2] == "I"]
+    if not ints:
+        return r
+    for bits in (8, 13, 20, 33):
+        box = []
+        for v in ints:
+            box.append(("le", -(1 << bits), v))
+            box.append(("le", v, 1 << bits))
+        r2 = smt.check(list(assertions) + box, rlimit=rlimit, use_cvc5=False)
+        if r2.status == "sat":
+            return r2
+    return r
+
+
+def limit_memory(gb=6):
+    try:
+        import resource
+        resource.setrlimit(resource.RLIMIT_AS, (gb << 30, gb << 30))
+    except Exception:
+        pass
 
 
 def run_target(target, findings=(), seed=0, do_diff=True):
@@ -405,6 +437,7 @@ def run_target(target, findings=(), seed=0, do_diff=True):
                 res["discharged"] += 1
                 res["backends"][r.backend] = res["backends"].get(r.backend, 0) + 1
             elif r.status == "sat":
+                r = small_model(base + extra, r, target.rlimit)
                 rep = replay_model(target, r.model)
                 res["refuted"].append({"obligation": oid, "model": jsonable_model(r.model), "backend": r.backend,
                                        "replay": rep, "goal": show(goal)[:400],
@@ -418,6 +451,7 @@ def run_target(target, findings=(), seed=0, do_diff=True):
                 wt = w if isinstance(w, bool) else w.t
                 r2 = smt.check(list(ob["pc"]) + [neg_t, wt], rlimit=target.rlimit)
                 if r2.status == "sat":
+                    r2 = small_model(list(ob["pc"]) + [neg_t, wt], r2, target.rlimit)
                     rep = replay_model(target, r2.model)
                     known_hit[f["id"]] = {"finding": f["id"], "obligation": oid, "model": jsonable_model(r2.model),
                                           "replay": rep["status"]}
